@@ -3,6 +3,7 @@ import Txtpp.Model.Text
 import Txtpp.Model.Tag
 import Txtpp.Model.Project
 import Txtpp.Model.Safe
+import Txtpp.Model.ProjSafe
 import Txtpp.Model.Cli
 import Txtpp.Model.Shell
 import Txtpp.Model.CoordSim
@@ -240,6 +241,36 @@ def handle (line : String) : String :=
       let skip := (rs.filter (fun r => r.2 == none)).length
       let badNames := if bad.isEmpty then "-" else ",".intercalate (bad.map (fun r => hex (joinPath r.1)))
       s!"safe={ok} unsafe={bad.length} skip={skip} {badNames}"
+    | _, _, _, _ => "bad-field"
+  | ["projsafe", tr, rec, base, inputs, tree, cmds] =>
+    -- the executable side conditions of the whole-project theorems (C08 build twice = once, C09 needed = build),
+    -- evaluated along the model's reference run, and the conclusions of those theorems (which must hold whenever
+    -- the side condition does)
+    match unhex base, (splitList inputs).mapM unhex, parseTree (splitList tree), parseCmds (splitList cmds) with
+    | some base, some inputs, some fs, some cmds =>
+      let cfg : Cfg := { mode := .build, trailing := tr == "t", recursive := rec == "t", baseAbs := base, cmds := cmds }
+      let (v1, a1) := runProject cfg fs inputs
+      let sameFiles (x y : FS) : Bool := ((x.files ++ y.files).map (·.1)).all (fun q => x.file? q == y.file? q)
+      let showSt (o : Option (List Path)) : String := match o with
+        | none => "unsafe" | some [] => "clean" | some _ => "stale"
+      -- C09
+      let stN := projStale cfg (trNeeded cfg) fs inputs []
+      let (vN, aN) := runProject { cfg with mode := .inMemory } fs inputs
+      let nconcl := match stN with
+        | none => true
+        | some [] => v1 == vN && sameFiles a1 aN
+        | some _ => v1 == vN
+      -- C08
+      let S := (((fs.files ++ a1.files).map (·.1)).filter (fun q => fs.file? q != a1.file? q)).eraseDups
+      let side := srcPaths fs == srcPaths a1 && resolveInputs cfg fs inputs == resolveInputs cfg a1 inputs && fs.dirs == a1.dirs
+      let (v2, a2) := runProject cfg a1 inputs
+      let stT := if v1 == Verdict.ok && side && v2 != Verdict.outOfFuel then projStale cfg (trSame cfg) fs inputs S else none
+      let tconcl := match stT with
+        | some [] => v2 == Verdict.ok && sameFiles a2 a1
+        | _ => true
+      let srcs := (fs.files.map (·.1)).filter (fun p => (outputPath p).isSome)
+      let deps := srcs.any (fun p => match (runPass cfg fs p true).1 with | .hasDeps _ => true | _ => false)
+      s!"v={showVerdict v1} deps={deps} needed={showSt stN} nconcl={nconcl} twice={if v1 == Verdict.ok then showSt stT else "n/a"} tconcl={tconcl}"
     | _, _, _, _ => "bad-field"
   | ["coordscan", files, dirs, world, dirworld, choices] =>
     match parseNats files, parseNats dirs, parseWorld (splitList world), parseDirWorld (splitList dirworld), parseNats choices with
